@@ -84,8 +84,8 @@ def make_case(ctx, idx):
     r = case_rng(ctx.seed, ID, idx)
     big = r.random() < 0.5
     steps = 60 if big else None
-    if idx % 12 == 5:
-        steps = 700          # several hundred records: the serialisation crosses every usual buffer size (64 KiB and more)
+    if (idx // 4) % 5 == 2:
+        steps = 700          # several hundred records: the serialisation crosses every usual buffer size (64 KiB and more), in every format
     ops = gen.Gen(r, gen.profile("c06", max_steps=60 if big else 8, max_bundles=1, ns_uris=gen.NS_URIS_ASCII)).program(steps=steps)
     fmt = FORMATS[idx % len(FORMATS)]
     # serializer options travel with the call: "exact" means the bytes this very call would hand to a stream
@@ -386,6 +386,22 @@ def run_inprocess(ctx, case, problems):
                                      "audit": log[:12]})
                 elif not same_serialisation(fmt, open(dest, "rb").read(), ref, doc, same_process=True):
                     problems.append({"fault": None, "problem": "bytes at the destination differ from the serialisation", "audit": log[:12]})
+                else:
+                    # "the complete serialisation": judged also against the text the same call *returns* (another code path than the
+                    # byte stream the reference came from), through the independent readers
+                    try:
+                        text = doc.serialize(format=fmt, **kw)
+                        tk = content_key(fmt, text.encode("utf-8") if isinstance(text, str) else text)
+                    except Exception:
+                        tk = None
+                    if tk is not None:
+                        fk = content_key(fmt, open(dest, "rb").read())
+                        ctx.count("file_read_back_by_independent_reader")
+                        if fk is None:
+                            problems.append({"fault": None, "problem": "the file is not a readable %s text although the string the same call returns is (%d bytes in the file, %d in the string)"
+                                             % (fmt, os.path.getsize(dest), len(text))})
+                        elif fmt != "rdf" and fk != tk:
+                            problems.append({"fault": None, "problem": "the file denotes another document than the string the same call returns"})
                 ctx.count("audit_events", len(log))
             else:
                 injected += 1
